@@ -28,6 +28,20 @@ def safe(f):
         return "assert"
 
 
+_C08_LISTED = None
+
+
+def _c08_listed():
+    global _C08_LISTED
+    if _C08_LISTED is None:
+        import common
+        _C08_LISTED = set()
+        for f in common.known_findings().get("findings", []):
+            if f["id"] == "C08-mixed-cutoff":
+                _C08_LISTED = {(tuple(a), ca, tuple(b), cb, pre) for a, ca, b, cb, pre in f.get("inputs", [])}
+    return _C08_LISTED
+
+
 def monitor_c08(rng: random.Random, tier: str):
     """Order laws, monotone arrival, associativity, action law on the box of shapes."""
     vio = []
@@ -46,11 +60,20 @@ def monitor_c08(rng: random.Random, tier: str):
         for a, b in itertools.product(group, group):
             n += 1
             mixed = a.cutoff != b.cutoff
-            fid = "C08-mixed-cutoff" if mixed else None
+            # the known finding is identified by its inputs: the listed pairs of operands of different cutoff (known_findings.json)
+            fid = "C08-mixed-cutoff" if mixed and (tuple(a.tiers), a.cutoff, tuple(b.tiers), b.cutoff, a.pre_length) in _c08_listed() else None
             lt, gt, eq = safe(lambda: a < b), safe(lambda: b < a), a == b
             if lt == "assert" or gt == "assert":
                 if not mixed:
                     report("same-cutoff operands must be comparable", a=a, b=b)
+                elif lt != gt:
+                    # incomparable one way round only: whichever side answers claims an order the other side denies
+                    report("a < b answers although b < a is refused as incomparable (or vice versa)", fid, a=a, b=b, lt=lt, gt=gt)
+                    if lt is True:
+                        for t in times[pre]:
+                            if not (t + a <= t + b):
+                                report("smaller delay, later arrival", fid, a=a, b=b, t=t)
+                                break
                 continue
             if not mixed and (int(lt) + int(gt) + int(eq)) != 1:
                 report("exactly one of <, ==, > (trichotomy)", a=a, b=b, lt=lt, gt=gt, eq=eq)
